@@ -138,6 +138,25 @@ def visit_order_rule(crate, prop, rule="C13.R2"):
             if fn_matches(t, r"TS::dependencies$"):
                 n += 1
                 fate = _forward(body, t["dst"]["l"], set())
+                # follow the list into functions of the exporter it is handed to (one level per step, three at most)
+                for _ in range(3):
+                    nxt, changed = [], False
+                    for x in fate:
+                        mm = re.match(r"^arg:(.+):(\d+)$", x)
+                        hb = crate.body(mm.group(1)) if mm else None
+                        if mm and hb is not None and int(mm.group(2)) + 1 <= hb.raw["arg_count"]:
+                            sub = _forward(hb, int(mm.group(2)) + 1, set())
+                            # a loop in the callee that only fills ordered/keyed collections sorts just as `collect` does
+                            hl = [bb for bb, tt in hb.calls() if not hb.is_cleanup(bb) and fn_matches(tt, r"Iterator>::next$", r"Iterator::next$") and "Dependency" in (tt.get("arg_tys") or [""])[0] and "btree" not in (tt.get("arg_tys") or [""])[0]]
+                            if hl and all(_loop_accumulates_into_sets(hb, bb) for bb in hl):
+                                sub = ["collect->std::collections::BTree (loop in %s)" % hb.path if re.search(r"Iterator>?::next$", s2) else s2 for s2 in sub]
+                            nxt += sub if sub else ["%s (parameter %s, not consumed in a way this rule reads)" % (mm.group(1), mm.group(2))]
+                            changed = True
+                        else:
+                            nxt.append(x)
+                    fate = nxt
+                    if not changed:
+                        break
                 f, l = M.user_span(t["span"])
                 # a `for dep in &deps { .. }` whose body only inserts into ordered/keyed collections sorts just as `collect` does
                 loops = [bb for bb, tt in body.calls() if not body.is_cleanup(bb) and fn_matches(tt, r"Iterator>::next$", r"Iterator::next$")
@@ -215,6 +234,12 @@ def _forward(body, local, seen):
                     pass
                 else:
                     out.append(_short(t))
+            else:
+                # handed on as a later argument (`generate_imports(&mut buf, &deps, ..)`): the callee's parameter carries it
+                for k, a in enumerate(t["args"][1:], start=1):
+                    pa = M.op_place(a)
+                    if pa and pa["l"] == local and not pa["p"]:
+                        out.append("arg:%s:%d" % ((t.get("fn") or {}).get("res") or (t.get("fn") or {}).get("path") or "?", k))
     return out
 
 
